@@ -167,4 +167,4 @@ def shard(ctx):
     for i in range(4):
         combo = c02.COMBOS[(i + ctx.shard) % 4]
         inn = ("none",) if (i + ctx.shard // 4) % 4 == 0 else ("k",)
-        ctx.run_given(cases(combo, inn), case, examples=per, label=f"combo{combo}{inn}")
+        ctx.run_given(cases(combo, inn), case, examples=per, label=f"combo{combo}{inn}", share=0.25)
